@@ -3,6 +3,8 @@
  * `ran <i>` every time it gets the CPU back.  The main fiber (the kernel thread 0 context)
  * polls with fiber_yield() until all script fibers have finished — itself a yield-based
  * polling loop of the kind the property talks about. */
+/* many fibers: size-triggered scheduler paths (deque growth at 256 entries) */
+#define VH_MAXF 600
 #include "rtcommon.h"
 
 static volatile int finished[VH_MAXF];
@@ -36,7 +38,7 @@ VH_NOINSTR int main(int argc, char** argv) {
   vr_note("init sched %d", k);
   vh_do_op = do_op;
   for (int t = 0; t < vh_script.nfibers; t++) {
-    vh_fibers[t] = fiber_create_no_sched(65536, vh_fiber_main, (void*)(long)t);
+    vh_fibers[t] = fiber_create_no_sched(vh_script.nfibers > 64 ? 16384 : 65536, vh_fiber_main, (void*)(long)t);
     vh_reg_fiber(vh_fibers[t], t);
     fiber_detach(vh_fibers[t]);
   }
